@@ -367,3 +367,53 @@ def link_line(prog, files):
     for fn, content in files:
         parts += [hx(fn), hx(content)]
     return " ".join(parts)
+
+
+# ---------------------------------------------------------------------------------------------------
+# The concrete objects used by the non-vacuity examples and counterexample theorems of
+# lean/NakenVerif/Props/C20.lean (`python3 tools/gen_obj.py lean-examples` re-creates Link/Examples.lean)
+# ---------------------------------------------------------------------------------------------------
+
+def example_objects():
+    w = lambda *ws: b"".join(struct.pack("<I", x) for x in ws)
+    out = {}
+    # f: jal g ; jr ra      g: jr ra ; addiu v0,0,7      h (not referenced): nop
+    out["exObj"] = write_elf(Obj(text=w(0x0c000000, 0x03e00008, 0x03e00008, 0x24020007, 0),
+                                 syms=[Sym("f", 0, 8), Sym("g", 8, 8), Sym("h", 16, 4)], rels=[(0, 2, R_MIPS_26)]))[0]
+    # f: jal g ; nop        g is not defined anywhere
+    out["exUnres"] = write_elf(Obj(text=w(0x0c000000, 0),
+                                   syms=[Sym("f", 0, 8), Sym("g", 0, 0, STB_GLOBAL, STT_NOTYPE, "UND")],
+                                   rels=[(0, 2, R_MIPS_26)]))[0]
+    # f: j g (tail call, R_MIPS_26 on a `j`) ; nop      g: jr ra ; nop
+    out["exJ"] = write_elf(Obj(text=w(0x08000000, 0, 0x03e00008, 0),
+                               syms=[Sym("f", 0, 8), Sym("g", 8, 8)], rels=[(0, 2, R_MIPS_26)]))[0]
+    # f: jal .text+8 (call of the static function s through the section symbol, addend 2 in the field) ; nop
+    # s (STB_LOCAL): jr ra ; nop
+    out["exSec"] = write_elf(Obj(text=w(0x0c000002, 0, 0x03e00008, 0),
+                                 syms=[Sym("", 0, 0, STB_LOCAL, STT_SECTION, ".text"), Sym("s", 8, 8, STB_LOCAL),
+                                       Sym("f", 0, 8)], rels=[(0, 1, R_MIPS_26)]))[0]
+    # 64-bit and big-endian containers of exObj's content
+    out["ex64"] = out["exObj"][:4] + b"\x02" + out["exObj"][5:]
+    out["exBE"] = out["exObj"][:5] + b"\x02" + out["exObj"][6:]
+    return out
+
+
+def lean_examples():
+    ex = example_objects()
+    lines = ["import NakenVerif.Link.LinkImpl",
+             "/- GENERATED once by `python3 tools/gen_obj.py lean-examples` (ELF32 writer of tools/gen_obj.py); committed.",
+             "   Concrete relocatable objects for the examples and counterexamples of Props/C20.lean. -/",
+             "namespace NakenVerif.Link.Examples", "open NakenVerif.Link", ""]
+    for name, b in ex.items():
+        lines.append("def %s : Bytes := #[%s]" % (name, ", ".join(str(x) for x in b)))
+        lines.append("")
+    lines.append("end NakenVerif.Link.Examples")
+    return "\n".join(lines) + "\n"
+
+
+if __name__ == "__main__":
+    import sys, os
+    if sys.argv[1:] == ["lean-examples"]:
+        p = os.path.join(os.path.dirname(os.path.dirname(os.path.abspath(__file__))), "lean", "NakenVerif", "Link", "Examples.lean")
+        open(p, "w").write(lean_examples())
+        print("wrote", p)
